@@ -1007,3 +1007,73 @@ def check_single_expansion(ctx, rep, f, rule=RULE + '.W9'):
             else:
                 rep.holds(rule, f, inner, 'the loop over the alternatives is left right after the popped node received its children (one expansion per node)')
     return n
+
+
+# ---- recursive closure with a shared result memo -----------------------------------------------------------------
+
+def check_recursive_memo(ctx, rep, funcs, rule=RULE + '.recmemo'):
+    """def g(p): if p not in D: D[p] = <seed>; for p1 in <successors of p>: D[p] |= g(p1); return D[p]   with D living
+    outside g.  The entry of p is visible to the recursive calls before it is complete, so on a cycle the partial set
+    of a node in progress is merged into -- and memoised as -- the final result of another node; only the node the
+    outermost call started from is complete.  A later call g(c) for another node c of the cycle returns the partial set.
+    Decided only for this shape (graph recursion: the recursive argument is not a sub-object of p); everything else is
+    left alone (pattern rule, no floor)."""
+    n = 0
+    for g in funcs:
+        params = [p for p in g.params if p != 'self']
+        if not params:
+            continue
+        selfcalls = [c for c in walk_no_nested(g.node) if isinstance(c, ast.Call) and isinstance(c.func, ast.Name) and c.func.id == g.name and c.args]
+        if not selfcalls:
+            continue
+        local = set()
+        for x in walk_no_nested(g.node):
+            if isinstance(x, (ast.Assign, ast.AugAssign, ast.AnnAssign, ast.For)):
+                for t in (x.targets if isinstance(x, ast.Assign) else [x.target]):
+                    local |= {y.id for y in ast.walk(t) if isinstance(y, ast.Name) and isinstance(y.ctx, ast.Store)}
+        for st in walk_no_nested(g.node):
+            if not isinstance(st, ast.If):
+                continue
+            # guard  p not in D   (D a name that g does not bind itself: free variable, global)
+            t = st.test
+            if not (isinstance(t, ast.Compare) and len(t.ops) == 1 and isinstance(t.ops[0], ast.NotIn) and isinstance(t.left, ast.Name) and t.left.id in params
+                    and isinstance(t.comparators[0], ast.Name)):
+                continue
+            p, D = t.left.id, t.comparators[0].id
+            if D in params or D in local:
+                continue
+            seeded_at = None
+            merged = None
+            order = []
+            for s in st.body:
+                for x in ast.walk(s):
+                    order.append(x)
+            for i, x in enumerate(order):
+                if isinstance(x, ast.Assign) and len(x.targets) == 1 and isinstance(x.targets[0], ast.Subscript) and u(x.targets[0].value) == D and u(x.targets[0].slice) == p \
+                        and not any(c in selfcalls for c in ast.walk(x.value)) and seeded_at is None:
+                    seeded_at = (i, x)
+                rec = None
+                if isinstance(x, ast.AugAssign) and isinstance(x.target, ast.Subscript) and u(x.target.value) == D and u(x.target.slice) == p:
+                    rec = [c for c in ast.walk(x.value) if c in selfcalls]
+                if isinstance(x, ast.Assign) and len(x.targets) == 1 and isinstance(x.targets[0], ast.Subscript) and u(x.targets[0].value) == D and u(x.targets[0].slice) == p:
+                    rec = [c for c in ast.walk(x.value) if c in selfcalls]
+                if isinstance(x, ast.Call) and isinstance(x.func, ast.Attribute) and x.func.attr in ('update', 'extend') and isinstance(x.func.value, ast.Subscript) \
+                        and u(x.func.value.value) == D and u(x.func.value.slice) == p:
+                    rec = [c for a in x.args for c in ast.walk(a) if c in selfcalls]
+                if rec and seeded_at is not None and i > seeded_at[0] and merged is None:
+                    merged = (x, rec[0])
+            if seeded_at is None or merged is None:
+                continue
+            arg = merged[1].args[0]
+            # recursion into a sub-object of p (tree recursion) cannot meet a node in progress
+            if any(isinstance(x, (ast.Attribute, ast.Subscript)) and u(x.value) == p for x in ast.walk(arg)):
+                continue
+            # the memo hit is handed out as the answer
+            returns_memo = any(isinstance(r, ast.Return) and r.value is not None and u(r.value) == '{}[{}]'.format(D, p) for r in walk_no_nested(g.node))
+            if not returns_memo:
+                continue
+            n += 1
+            rep.violates(rule, g, merged[0], 'recursive closure with a shared memo: {D}[{p}] is seeded before the recursive calls and their results are merged into it, so on a cycle '
+                         'the incomplete set of a node in progress becomes part of the memoised result of another node; a later {g}(c) for a node c of the cycle returns that incomplete set '
+                         '(only the node of the outermost call is complete)'.format(D=D, p=p, g=g.name))
+    return n
